@@ -145,38 +145,45 @@ func (in *Interp) listMethod(l *List, name string, args []Value) (Value, *Err) {
 		if e != nil {
 			return nil, e
 		}
-		items, e := in.Force(l)
-		if e != nil {
+		// items are pulled one by one, the function is called before the next item is pulled
+		var acc Value
+		n := 0
+		if e := in.each(l, func(it Value) *Err {
+			n++
+			if n == 1 {
+				acc = it
+				return nil
+			}
+			var ce *Err
+			acc, ce = in.Call(f, []Value{acc, it})
+			return ce
+		}); e != nil {
 			return nil, e
 		}
-		if len(items) == 0 {
+		if n == 0 {
 			return nil, errf("reduce on empty list")
-		}
-		acc := items[0]
-		for _, it := range items[1:] {
-			acc, e = in.Call(f, []Value{acc, it})
-			if e != nil {
-				return nil, e
-			}
 		}
 		return acc, nil
 	case "sum", "mean":
-		items, e := in.Force(l)
-		if e != nil {
+		var acc Value
+		n := 0
+		if e := in.each(l, func(it Value) *Err {
+			n++
+			if n == 1 {
+				acc = it
+				return nil
+			}
+			var ce *Err
+			acc, ce = in.BinOp("+", acc, it)
+			return ce
+		}); e != nil {
 			return nil, e
 		}
-		if len(items) == 0 {
+		if n == 0 {
 			return nil, errf("%s on empty list", name)
 		}
-		acc := items[0]
-		for _, it := range items[1:] {
-			acc, e = in.BinOp("+", acc, it)
-			if e != nil {
-				return nil, e
-			}
-		}
 		if name == "mean" {
-			return in.BinOp("/", acc, int64(len(items)))
+			return in.BinOp("/", acc, int64(n))
 		}
 		return acc, nil
 	case "mapReduce":
@@ -184,16 +191,13 @@ func (in *Interp) listMethod(l *List, name string, args []Value) (Value, *Err) {
 		if e != nil {
 			return nil, e
 		}
-		items, e := in.Force(l)
-		if e != nil {
-			return nil, e
-		}
 		acc := args[0]
-		for _, it := range items {
-			acc, e = in.Call(f, []Value{acc, it})
-			if e != nil {
-				return nil, e
-			}
+		if e := in.each(l, func(it Value) *Err {
+			var ce *Err
+			acc, ce = in.Call(f, []Value{acc, it})
+			return ce
+		}); e != nil {
+			return nil, e
 		}
 		return acc, nil
 	case "min", "max":
@@ -210,36 +214,39 @@ func (in *Interp) listMethod(l *List, name string, args []Value) (Value, *Err) {
 		if e != nil {
 			return nil, e
 		}
-		items, e := in.Force(l)
-		if e != nil {
-			return nil, e
-		}
-		if len(items) == 0 {
-			return MapOf("min", int64(0), "max", int64(0), "minItem", int64(0), "maxItem", int64(0), "valid", false), nil
-		}
-		keys := make([]Value, len(items))
-		for i, it := range items {
-			keys[i], e = in.Call(f, []Value{it})
-			if e != nil {
-				return nil, e
-			}
-		}
+		var items, keys []Value
 		mi, ma := 0, 0
-		for i := 1; i < len(items); i++ {
-			lt, e := in.Less(keys[i], keys[mi])
-			if e != nil {
-				return nil, e
+		if e := in.each(l, func(it Value) *Err {
+			k, ce := in.Call(f, []Value{it})
+			if ce != nil {
+				return ce
+			}
+			items, keys = append(items, it), append(keys, k)
+			i := len(items) - 1
+			if i == 0 {
+				return nil
+			}
+			// compared with the extremes found so far before the next item is pulled
+			lt, ce := in.Less(keys[i], keys[mi])
+			if ce != nil {
+				return ce
 			}
 			if lt {
 				mi = i
 			}
-			gt, e := in.Less(keys[ma], keys[i])
-			if e != nil {
-				return nil, e
+			gt, ce := in.Less(keys[ma], keys[i])
+			if ce != nil {
+				return ce
 			}
 			if gt {
 				ma = i
 			}
+			return nil
+		}); e != nil {
+			return nil, e
+		}
+		if len(items) == 0 {
+			return MapOf("min", int64(0), "max", int64(0), "minItem", int64(0), "maxItem", int64(0), "valid", false), nil
 		}
 		// ties: which of several extremal items is reported is not documented
 		for i := range items {
@@ -374,13 +381,21 @@ func (in *Interp) listMethod(l *List, name string, args []Value) (Value, *Err) {
 		if e != nil {
 			return nil, e
 		}
-		items, e := in.Force(l)
-		if e != nil {
-			return nil, e
-		}
+		// the key of an item is computed before the next item is pulled (which of two errors comes first depends on it)
 		var keys []Value
 		var groups [][]Value
-		for _, it := range items {
+		pull := l.Iter()
+		for {
+			it, pe, ok := pull()
+			if pe != nil {
+				return nil, pe
+			}
+			if !ok {
+				break
+			}
+			if e := in.tick(); e != nil {
+				return nil, e
+			}
 			k, e := in.Call(f, []Value{it})
 			if e != nil {
 				return nil, e
@@ -433,12 +448,19 @@ func (in *Interp) listMethod(l *List, name string, args []Value) (Value, *Err) {
 		if e != nil {
 			return nil, e
 		}
-		items, e := in.Force(l)
-		if e != nil {
-			return nil, e
-		}
 		var keys []Value
-		for _, it := range items {
+		pull := l.Iter()
+		for {
+			it, pe, ok := pull()
+			if pe != nil {
+				return nil, pe
+			}
+			if !ok {
+				break
+			}
+			if e := in.tick(); e != nil {
+				return nil, e
+			}
 			k, e := in.Call(f, []Value{it})
 			if e != nil {
 				return nil, e
@@ -619,22 +641,39 @@ func (in *Interp) listMethod(l *List, name string, args []Value) (Value, *Err) {
 				return nil, e
 			}
 		}
-		// all pairs must be comparable, otherwise which pair the sort meets is open (error certain only if every pair fails)
-		nErr, nPairs := 0, 0
+		// Which pairs a sort compares is open, but the comparisons it makes must connect all items (otherwise
+		// the order of two groups would be a guess): if the comparable pairs do not connect the keys, an
+		// incomparable pair is met for certain; if they connect them but some pair is incomparable, it is open.
+		nErr := 0
+		comp := make([]int, len(keys))
+		for i := range comp {
+			comp[i] = i
+		}
+		var find func(int) int
+		find = func(x int) int {
+			for comp[x] != x {
+				comp[x] = comp[comp[x]]
+				x = comp[x]
+			}
+			return x
+		}
 		for i := range keys {
 			for j := i + 1; j < len(keys); j++ {
-				nPairs++
 				if _, e := in.Less(keys[i], keys[j]); e != nil {
 					if e.Unspec {
 						return nil, e
 					}
 					nErr++
+				} else {
+					comp[find(i)] = find(j)
 				}
 			}
 		}
 		if nErr > 0 {
-			if nErr == nPairs {
-				return nil, errf("sort keys are not comparable")
+			for i := range keys {
+				if find(i) != find(0) {
+					return nil, errf("sort keys are not comparable")
+				}
 			}
 			return nil, unspec("sort over partially incomparable keys")
 		}
@@ -860,16 +899,13 @@ func (in *Interp) listMethod(l *List, name string, args []Value) (Value, *Err) {
 		if e != nil {
 			return nil, e
 		}
-		items, e := in.Force(l)
-		if e != nil {
-			return nil, e
-		}
 		acc := args[0]
-		for _, it := range items {
-			acc, e = in.Call(f, []Value{acc, it})
-			if e != nil {
-				return nil, e
-			}
+		if e := in.each(l, func(it Value) *Err {
+			var ce *Err
+			acc, ce = in.Call(f, []Value{acc, it})
+			return ce
+		}); e != nil {
+			return nil, e
 		}
 		return acc, nil
 	case "top":
